@@ -29,7 +29,7 @@ def representative(with_position: bool = True) -> HDict:
     cls = cdict([("__type__", "class"), ("name", word("cname")), ("styles", [style])])
     md = cdict([("__type__", "metadata"), ("wms_title", word("title"))])
     feat = cdict([("__type__", "feature"), ("points", [[(num("x0"), num("y0")), (num("x1"), num("y1"))]])])
-    layer = cdict([("__type__", "layer"), ("name", word("lname")), ("type", SStr.atom("enumword", lower_is="point")), ("extent", [num("e0"), num("e1"), num("e2"), num("e3")]), ("metadata", md), ("classes", [cls]), ("features", [feat])])
+    layer = cdict([("__type__", "layer"), ("name", word("lname")), ("type", SStr.atom("enumword", lower_is="point")), ("extent", [num("e0"), num("e1"), num("e2"), num("e3")]), ("processing", [word("proc0"), word("proc1")]), ("metadata", md), ("classes", [cls]), ("features", [feat])])
     web = cdict([("__type__", "web"), ("template", word("tmpl"))])
     root = cdict([("__type__", "map"), ("name", word("mname")), ("size", [num("sx"), num("sy")]), ("web", web), ("layers", [layer])])
     if with_position:
@@ -37,7 +37,7 @@ def representative(with_position: bool = True) -> HDict:
         cls["__position__"] = pos("class", {"name": pos("class_name")})
         md["__position__"] = pos("metadata")
         feat["__position__"] = pos("feature", {"points": pos("feature_points")})
-        layer["__position__"] = pos("layer", {"name": pos("layer_name"), "type": pos("layer_type"), "extent": pos("layer_extent")})
+        layer["__position__"] = pos("layer", {"name": pos("layer_name"), "type": pos("layer_type"), "extent": pos("layer_extent"), "processing": [pos("layer_processing0"), pos("layer_processing1")]})
         web["__position__"] = pos("web", {"template": pos("web_template")})
         root["__position__"] = pos("map", {"name": pos("map_name"), "size": pos("map_size")})
     return root
@@ -54,6 +54,8 @@ SHAPES = [
     (["layers", 0], "object-level error in an object of a list", "LAYER", ["layers", 0], "layer"),
     (["layers", 0, "type"], "keyword of an object in a list", "TYPE", ["layers", 0], "layer_type"),
     (["layers", 0, "extent", 2], "item of a list-valued keyword, nested", "EXTENT", ["layers", 0], "layer_extent"),
+    (["layers", 0, "processing", 1], "second occurrence of a repeated keyword (one recorded position per occurrence)", "PROCESSING", ["layers", 0], "layer_processing1"),
+    (["layers", 0, "processing", 0], "first occurrence of a repeated keyword", "PROCESSING", ["layers", 0], "layer_processing0"),
     (["layers", 0, "metadata"], "object-level error in a key/value block", "METADATA", ["layers", 0, "metadata"], "metadata"),
     (["layers", 0, "classes", 0, "styles", 0], "object three lists deep", "STYLE", ["layers", 0, "classes", 0, "styles", 0], "style"),
     (["layers", 0, "classes", 0, "styles", 0, "color", 1], "item of a list-valued keyword, three lists deep", "COLOR", ["layers", 0, "classes", 0, "styles", 0], "style_color"),
